@@ -25,6 +25,11 @@ pub struct DrawRun {
     /// Err(String): the library panicked
     pub result: Result<DrawResult, String>,
     pub boxes: Vec<Rectangle>,
+    /// a stream's size_hint() contradicted what the stream yielded (dev::note_hint)
+    pub hint_breach: Option<String>,
+    /// an unbounded internal-iteration consumer met a stream that did not end: nothing can be
+    /// concluded from this run (such a consumer is only legal for finite streams)
+    pub inconclusive: bool,
 }
 
 struct DrawVisitor<'s> {
@@ -56,6 +61,8 @@ fn run_typed<C: SimColor>(cfg: &RunCfg, spec: &DrawableSpec, path: Path) -> Draw
     let fold = matches!(cfg.dev.disc(), crate::dev::Discipline::DrainBounded | crate::dev::Discipline::SkipHidden)
         && !matches!(cfg.fault, Some(f) if f.at_item.is_some());
     crate::erased::set_fold_mode(fold);
+    crate::dev::take_hint_breach();
+    crate::dev::take_unbounded_abort();
     let result = guarded(|| {
         let mut boxes = Vec::new();
         let mut top = DynTarget::new(&mut dev);
@@ -66,6 +73,8 @@ fn run_typed<C: SimColor>(cfg: &RunCfg, spec: &DrawableSpec, path: Path) -> Draw
         st: dev.into_state(),
         result,
         boxes: v.boxes,
+        hint_breach: crate::dev::take_hint_breach(),
+        inconclusive: crate::dev::take_unbounded_abort(),
     }
 }
 
